@@ -328,14 +328,20 @@ func (i *Info) Validate() error {
 // GetChangeLog parses the provided changelog file.
 func (i *Info) GetChangeLog() (log *chglog.PackageChangeLog, err error) {
 	// if the file does not exist chglog.Parse will just silently
-	// create an empty changelog but we should notify the user instead
-	if _, err = os.Stat(i.Changelog); errors.Is(err, fs.ErrNotExist) {
-		return nil, err
+	// create an empty changelog but we should notify the user instead:
+	// read the file here, so that there is no moment between looking at
+	// it and reading it at which it may go missing unnoticed
+	body, err := os.ReadFile(i.Changelog)
+	if err != nil {
+		if errors.Is(err, fs.ErrNotExist) {
+			return nil, err
+		}
+		return nil, fmt.Errorf("error parsing %s: %w", i.Changelog, err)
 	}
 
-	entries, err := chglog.Parse(i.Changelog)
-	if err != nil {
-		return nil, err
+	var entries chglog.ChangeLogEntries
+	if err = yaml.Unmarshal(body, &entries); err != nil {
+		return nil, fmt.Errorf("error parsing %s: %w", i.Changelog, err)
 	}
 
 	return &chglog.PackageChangeLog{
